@@ -273,6 +273,13 @@ def multinet_series(ctx, n_nets, n_steps):
         steps = list(range(n_steps))
         ctx.rng.shuffle(steps)
         steps = steps[:max(3, n_steps - ctx.rng.randint(0, 3))]
+        # every second series contains a step that makes the gas net infeasible (NaN supply pressure) and is run with
+        # continue_on_divergence: the step must be flagged, the other steps unaffected
+        diverging = series % 2 == 1
+        eg0 = int(gas0.ext_grid.index[0])
+        if diverging:
+            prof["eg_p"] = [float(gas0.ext_grid.at[eg0, "p_bar"])] * n_steps
+            prof.loc[steps[len(steps) // 2], "eg_p"] = float("nan")
         gas, power = copy.deepcopy(gas0), copy.deepcopy(power0)
         mn = create_empty_multinet("c13")
         add_nets_to_multinet(mn, power=power, gas=gas)
@@ -287,11 +294,13 @@ def multinet_series(ctx, n_nets, n_steps):
         if "p2g" in variant:
             coupled_p2g_const_control(mn, 1, p2g_src, p2g_efficiency=eff_p2g, profile_name="p2g_p_mw", data_source=ds)
         ConstControl(power, "load", "p_mw", 0, profile_name="load_p_mw", data_source=ds)
+        if diverging:
+            ConstControl(gas, "ext_grid", "p_bar", eg0, profile_name="eg_p", data_source=ds)
         if other:
             ConstControl(gas, "sink", "mdot_kg_per_s", other[0], profile_name="sink_m", data_source=ds)
         ow_g = OutputWriter(gas, steps, output_path=None, log_variables=list(gas_log))
         ow_p = OutputWriter(power, steps, output_path=None, log_variables=[("res_bus", "vm_pu"), ("res_sgen", "p_mw")])
-        replay = {"gas_spec": spec, "variant": variant, "options": opts, "p2g_source_junction": src_j, "g2p_sink": g2p_sink, "eff": [eff_g2p, eff_p2g],
+        replay = {"gas_spec": spec, "variant": variant, "options": opts, "diverging": diverging, "p2g_source_junction": src_j, "g2p_sink": g2p_sink, "eff": [eff_g2p, eff_p2g],
                   "profile": json.loads(prof.to_json()), "steps": steps}
         # stand-alone calculations first: fresh nets carrying the row and the gas flows that follow from it
         refs, feasible = {}, True
@@ -309,7 +318,12 @@ def multinet_series(ctx, n_nets, n_steps):
                 pw.load.at[1, "p_mw"] = prof.at[t, "p2g_p_mw"] * 1.0
                 g.source.at[p2g_src, "mdot_kg_per_s"] = (pw.load.at[1, "p_mw"] * pw.load.at[1, "scaling"]) * \
                     (1e3 / (hhv * 3600)) * eff_p2g
+            if diverging:
+                g.ext_grid.at[eg0, "p_bar"] = prof.at[t, "eg_p"] * 1.0
             if H.do_run(g, opts)[0] != "ok":
+                if diverging and prof.at[t, "eg_p"] != prof.at[t, "eg_p"]:
+                    refs[t] = None                      # the intended diverging step
+                    continue
                 feasible = False
                 break
             ppw.runpp(pw)
@@ -318,7 +332,7 @@ def multinet_series(ctx, n_nets, n_steps):
             ctx.count("multinet_profile_infeasible")
             continue
         try:
-            run_ts_mn(mn, steps, verbose=False, **opts)
+            run_ts_mn(mn, steps, continue_on_divergence=diverging, verbose=False, **opts)
         except Exception as e:  # noqa: BLE001
             ctx.violation({"kind": "multinet-ts-outcome"}, "multinet run_timeseries raised %s: %s although every step "
                           "converges stand-alone" % (type(e).__name__, str(e)[:100]), replay)
@@ -326,7 +340,18 @@ def multinet_series(ctx, n_nets, n_steps):
             continue
         series += 1
         ok = True
+        par = ow_g.output.get("Parameters")
         for t in steps:
+            flag = bool(par.loc[t, "powerflow_failed"]) if par is not None and t in par.index else None
+            if isinstance(flag, bool) and flag != (refs[t] is None) and ok:
+                ok = False
+                ctx.violation({"kind": "multinet-ts-divergence-flag"},
+                              "multinet time series, step %d: gas powerflow_failed=%r but the stand-alone calculation %s"
+                              % (t, flag, "fails" if refs[t] is None else "converges"), replay)
+            if refs[t] is None:
+                rows += 1
+                ctx.count("multinet_diverging_steps")
+                continue
             g, pw = refs[t]
             pos = ow_g.time_step_lookup[t]
             for tb, c in gas_log:
